@@ -391,9 +391,11 @@ inline void promise_history(const vf::opts &o, vf::report &R, uint64_t histories
         vf::rng r(master.next());
         vf::set_crash_ctx(R.prop.c_str(), "promise_history", o.seed, hn);
         constexpr int NF = 4, NS = 5;
-        std::unique_ptr<cocls::future<int>> fut[NF];
+        using P = vf::tracked_thr; // counted payload whose construction can be made to throw
+        long live0 = tracked::live.load(), bad0 = tracked::bad.load();
+        std::unique_ptr<cocls::future<P>> fut[NF];
         outcome model[NF];                 // expected state of every future
-        std::optional<cocls::promise<int>> slot[NS];
+        std::optional<cocls::promise<P>> slot[NS];
         int owner[NS];                     // which future the promise in the slot points to (-1 none / empty promise)
         for (int i = 0; i < NS; i++) owner[i] = -1;
         int nf = 0;
@@ -415,7 +417,7 @@ inline void promise_history(const vf::opts &o, vf::report &R, uint64_t histories
             int a = (int)r.below(NS), b = (int)r.below(NS);
             if (x < 20 && nf < NF) { // new future, promise into slot a (move-assign over whatever is there)
                 trace += "new->s" + std::to_string(a) + " ";
-                fut[nf] = std::make_unique<cocls::future<int>>();
+                fut[nf] = std::make_unique<cocls::future<P>>();
                 if (slot[a]) { if (owner[a] >= 0) model[owner[a]].state = PS_CANCELED; *slot[a] = fut[nf]->get_promise(); }
                 else slot[a].emplace(fut[nf]->get_promise());
                 owner[a] = nf; model[nf].state = PS_PENDING; nf++;
@@ -438,13 +440,28 @@ inline void promise_history(const vf::opts &o, vf::report &R, uint64_t histories
                     if (how == 0) { m.state = PS_VALUE; m.val = 500 + (uint64_t)step; } else if (how == 1) { m.state = PS_EXC; m.code = 600 + step; } else m.state = PS_CANCELED;
                     owner[a] = -1;
                 }
+            } else if (x < 76 && slot[a]) { // invoke with arguments from which the value cannot be constructed (the constructor throws)
+                trace += "s" + std::to_string(a) + "(throwing value) ";
+                int code = 700 + step; bool threw = false, ok = false;
+                try { ok = (bool)(*slot[a])(vf::bomb{code}); } catch (const vf::test_exc &e) { threw = true; if (e.code != code) err = "foreign exception escaped the call"; }
+                bool still_armed = (bool)*slot[a];
+                if (owner[a] < 0) { if (ok) err = "call reported success on an empty promise"; }
+                else if (still_armed) { if (ok) err = "call reported success but the promise is still armed"; } // failed cleanly: nothing happened
+                else { // the call consumed the promise: then a resolution must have taken effect (the constructor's exception, or no-value)
+                    outcome got; got.state = PS_PENDING;
+                    if (fut[owner[a]]->ready()) got = read_future(*fut[owner[a]], nullptr, 0);
+                    if (got.state == PS_PENDING) err = "promise consumed by a call whose value construction threw, but its future stays pending: no resolution can ever take effect (waiters hang)";
+                    else if (!((got.state == PS_EXC && got.code == code) || got.state == PS_CANCELED)) err = "future resolved to " + got.str() + " by a call whose value construction threw";
+                    model[owner[a]] = got; owner[a] = -1;
+                }
+                (void)threw;
             } else if (x < 85 && slot[a]) { // destroy the promise object
                 trace += "~s" + std::to_string(a) + " ";
                 if (owner[a] >= 0) model[owner[a]].state = PS_CANCELED;
                 slot[a].reset(); owner[a] = -1;
             } else if (x < 92 && slot[a]) { // self move-assignment must change nothing
                 trace += "s" + std::to_string(a) + "=move(self) ";
-                cocls::promise<int> &ref = *slot[a];
+                cocls::promise<P> &ref = *slot[a];
                 *slot[a] = std::move(ref);
             } else continue;
             check(trace.c_str());
@@ -456,7 +473,12 @@ inline void promise_history(const vf::opts &o, vf::report &R, uint64_t histories
         if (!err.empty()) {
             R.violation("monitor:resolution|promise_history", err, vf::jobj().kv("history", (unsigned long long)hn).kv("seed", (unsigned long long)o.seed).kv("ops", trace).kv("disagreement", err).str());
             for (int f = 0; f < nf; f++) (void)fut[f].release();
-            for (int i = 0; i < NS; i++) if (slot[i]) { new (&*slot[i]) cocls::promise<int>(); }
+            for (int i = 0; i < NS; i++) if (slot[i]) { new (&*slot[i]) cocls::promise<P>(); }
+            continue;
+        }
+        for (int f = 0; f < nf; f++) fut[f].reset();
+        if (tracked::live.load() != live0 || tracked::bad.load() != bad0) {
+            R.violation("monitor:payload_balance|promise_history", "stored values not destroyed exactly once", vf::jobj().kv("history", (unsigned long long)hn).kv("ops", trace).kv("live_delta", (long long)(tracked::live.load() - live0)).str());
             continue;
         }
         if (len >= 4) { R.nontrivial_cases++; R.sig(trace); }
